@@ -17,6 +17,10 @@ PYDEPS = os.path.join(os.path.dirname(HERE), ".pydeps")
 if os.path.isdir(PYDEPS):
     sys.path.append(PYDEPS)
 os.environ.setdefault("POLLIWOG_VERIF", "1")
+# PW_REPO=<dir> runs the checks against another checkout of polliwog (scratch worktrees, mutation tests);
+# the default is /repo's working tree (polliwog is an editable install of /repo).
+REPO = os.environ.get("PW_REPO", "/repo")
+sys.path.insert(0, REPO)
 
 
 def main():
